@@ -8,7 +8,7 @@ from __future__ import annotations
 import itertools
 
 from sa.harness import H, show
-from sa.ae import Seq, DictV, SymStr, SAtom, Obj, Unknown, ClassV, Callback, mkstr
+from sa.ae import UserStr, Seq, DictV, SymStr, SAtom, Obj, Unknown, ClassV, Callback, mkstr
 from rules import common
 from rules.c16 import split_lines
 
@@ -63,7 +63,8 @@ def options(h, g, variant):
         opts.pairs.append([k, DictV([[kk, (DictV(vv.pairs) if isinstance(vv, DictV) else (Seq(list(vv.items), vv.kind) if isinstance(vv, Seq) else vv))] for kk, vv in v.pairs]) if isinstance(v, DictV) else v])
 
     def vert_cfg(typ):
-        return DictV([["type", typ], ["show_attrs", Seq(["nomatch_.+"], "list")], ["title_format", "$id"]])
+        # the caller's own option strings: equal to the tree's constants, not the same objects
+        return DictV([["type", UserStr(typ)], ["show_attrs", Seq([UserStr("nomatch_.+")], "list")], ["title_format", UserStr("$id")]])
 
     if variant == "subclass":
         opts.pairs.append([g["SymVert"], vert_cfg("class")])
